@@ -224,3 +224,9 @@ package locate
 //@   at call(AscendGreaterOrEqual) iterate bounded: forall i int :: 0 <= i && i < len(regions) ==> endKey == "" || regions[i].meta.StartKey < endKey
 //@   ensures chain: chainRegionsOpt(result, startKey)
 //@   ensures bounded: forall i int :: 0 <= i && i < len(result) ==> endKey == "" || result[i].meta.StartKey < endKey
+
+// Assumed (PD scan): the end key of the last loaded region lies beyond the start key, or is empty (+infinity).
+//@ func (c *RegionCache) BatchLoadRegionsFromKey
+//@   trusted
+//@   modifies nothing
+//@   ensures result1 == nil ==> result0 == "" || startKey < result0
